@@ -109,13 +109,23 @@ mod verif_c14 {
 
   /// Batches: one call with 4k clocks equals k reference steps (position, OR-ed requests, STAT).
   fn batch(kmax: usize, fixed: bool, lo: usize, hi: usize) {
-    let (mut a, p) = any_state();
+    let (mut a, mut p) = any_state();
     kani::assume(p >= lo && p < hi);
+    if hi - lo <= 4 {
+      // single start position: make it a compile-time constant for the symbolic executor (a constrained symbolic
+      // position still makes every mode branch of every iteration reachable for symex)
+      p = lo;
+      let (m, d, l) = at(lo);
+      a.current_mode = m; a.current_mode_dots = d; a.current_line = l;
+      a.current_obj_line_cache_pixel = 8 + if m == 3 { if d < 160 { d } else { 160 } } else { 0 };
+      a.current_window_line = None;
+    }
     let vram: Box<[u8]> = vec![0u8; 0x2000].into_boxed_slice();
     let oam: Box<[u8]> = vec![0u8; 0xa0].into_boxed_slice();
     let (lyc, e_lyc, e0, e1, e2) = (a.ly_compare, a.interrupt_on_lyc, a.interrupt_on_mode_0, a.interrupt_on_mode_1, a.interrupt_on_mode_2);
-    let k: usize = kani::any();
-    kani::assume(k >= 1 && k <= kmax && (!fixed || k == kmax));
+    let ksym: usize = kani::any();
+    kani::assume(ksym >= 1 && ksym <= kmax);
+    let k = if fixed { kmax } else { ksym }; // a fixed batch length must be a constant for the symbolic executor
     let fa = a.run_clock_cycles(ClockCycles(4 * k), &vram, &oam).as_u8();
     let mut want_stat = false;
     let mut want_vblank = false;
@@ -163,7 +173,7 @@ mod verif_c14 {
   #[kani::stub(crate::devices::video::VideoState::cache_next_tile_row, noop_tile)]
   #[kani::stub(crate::devices::video::VideoState::cache_next_window_tile_row, noop_tile)]
   #[kani::stub(crate::devices::video::lcd::LCD::get_writing_buffer_line, stub_line)]
-  fn c14_batch_into_vblank() { batch(6, true, 143 * 456 + 444, 143 * 456 + 448); }
+  fn c14_batch_into_vblank() { batch(8, true, 143 * 456 + 420, 144 * 456); }
   #[cfg(verif_thorough)]
   #[kani::proof]
   #[kani::unwind(12)]
